@@ -42,6 +42,8 @@ def plan(tier, seed):
 SCALARS = [
     "1", "-7", "0x1F", "0o17", "1_000", "2.5", "-0.0", "1e3", ".inf", "-.inf", "true", "false", "yes", "No", "~", "null",
     "2001-12-14", "!!binary aGVsbG8=", "!!omap [a: 1, b: 2]", "!!pairs [a: 1, a: 2]", "!!set {x, y}", "2001-12-14 21:59:43", "plain text", "'single quoted'", '"double \\" quoted é"', "''", "a:b", "'__type__'", '"🚀"', "007", "1.0.0",
+    # words of the configuration language itself, as plain text
+    "pipeline", "main-pipeline", "/etc/cobald/pipeline.yaml", "[pipeline, site]", "'__args__'", "logging",
 ]
 KEYS = ["a", "b", "c", "key", "interval", "rate", "x1", "name", "deep", "items", "label"]
 
